@@ -67,12 +67,17 @@ func (r *runner) lockSweep() {
 	for _, s := range []int64{-62167219200 /* year 0 */, -62135596800 /* zero time.Time */, -(1 << 32), -1, 0, 1, e.t.Unix() - 1, e.t.Unix(), e.t.Unix() + 1, 1<<31 - 1, 1 << 31, 1<<32 - 1, 1 << 32, 253402300799 /* 9999-12-31T23:59:59 */} {
 		ts = append(ts, time.Unix(s, 0))
 	}
+	// medians of an even number of timestamps are midpoints and may carry half a second
+	meds := append([]time.Time(nil), ts...)
 	for _, T := range ts {
-		for _, m := range ts {
-			want := m.Unix() > T.Unix()
+		meds = append(meds, T.Add(500*time.Millisecond), T.Add(-500*time.Millisecond))
+	}
+	for _, T := range ts {
+		for _, m := range meds {
+			want := m.After(T)
 			for _, k := range kinds {
 				p, sigs := embed(k, types.PolicyAfter(T))
-				verify(fmt.Sprintf("after(%d) at median %d as %s", T.Unix(), m.Unix(), k), p, e.h, m, sigs, want)
+				verify(fmt.Sprintf("after(%d) at median %d.%03d as %s", T.Unix(), m.Unix(), m.Nanosecond()/1e6, k), p, e.h, m, sigs, want)
 			}
 		}
 	}
